@@ -383,10 +383,15 @@ class Gen:
     def render(self, insts, schema=None, shuffle=True, header=None, comments_in_records=True):
         schema = schema or self.S.name
         r = self.r
-        out = ["ISO-10303-21;\nHEADER;\n"]
+        def kw(word):
+            """a section keyword and its semicolon: white space may stand between them"""
+            if self.fancy and r.random() < 0.12:
+                return word + r.choice([" ", "  ", "\n", "\t", " \n "]) + ";"
+            return word + ";"
+        out = ["ISO-10303-21;\n" + kw("HEADER") + "\n"]
         out.append(header or ("FILE_DESCRIPTION(('descr one','d2'),'2;1');\n"
                               "FILE_NAME('f.p21','2020-01-01T00:00:00',('a u','b'),('org'),'pre','sys','auth');\n"))
-        out.append("FILE_SCHEMA(('%s'));\nENDSEC;\nDATA;\n" % schema)
+        out.append("FILE_SCHEMA(('%s'));\n" % schema + kw("ENDSEC") + "\n" + kw("DATA") + "\n")
         order = list(insts)
         if shuffle and self.fancy:
             r.shuffle(order)
@@ -407,7 +412,7 @@ class Gen:
                 line += self.sep(tk if tk in ("(", ",") else "v", nxt)
             line += self.between(0.03) + ";" + ("\n" if r.random() < 0.9 or not self.fancy else " ")
             out.append(line)
-        out.append(self.between(0.15) + "ENDSEC;\nEND-ISO-10303-21;\n")
+        out.append(self.between(0.15) + kw("ENDSEC") + "\nEND-ISO-10303-21;\n")
         return "".join(out).encode("latin-1"), order
 
 
@@ -427,6 +432,10 @@ INV_ENTITIES = {
     "TAGGED_PART": (["PART", "TAGGED"], [("extra", INT, False, False)]),
     "TAG_USE": ([], [("target", ref("TAGGED", "TAGGED_PART"), False, False), ("uname", STR, False, False)]),
     "LABEL": ([], [("ltarget", PART_OR_DOC, False, False), ("ltext", STR, False, False)]),
+    "CRATE": ([], [("cname", STR, False, False), ("content", agg(ref("PART")), False, False)]),
+    "HOLDER": ([], [("hname", STR, False, False), ("held", ref("PART"), False, False)]),
+    "SUB_HOLDER": (["HOLDER"], [("sh", INT, False, False)]),
+    "TASK": ([], [("tname", STR, False, False), ("needs", agg(ref("TASK")), False, False), ("after", ref("TASK"), True, False)]),
     "ASSEMBLY": ([], [("aname", STR, False, False), ("components", agg(ref("PART")), False, False),
                       ("main_part", ref("PART"), True, False), ("spare", ref("PART"), True, False)]),
     "SUB_ASSEMBLY": (["ASSEMBLY"], [("level", INT, False, False)]),
@@ -437,10 +446,11 @@ INV_ENTITIES = {
 # external mappings of the assembly family (referrers in external mapping)
 INV_COMPLEX_LEGAL = [["ASSEMBLY", "SUB_ASSEMBLY"], ["ASSEMBLY", "SUB_ASSEMBLY", "SUB_SUB_ASSEMBLY"]]
 VERIF_INV = Schema("VERIF_INV", INV_ENTITIES, complex_legal=INV_COMPLEX_LEGAL,
-                   weights={"PART": 0.2, "SPECIAL_PART": 0.1, "VERY_SPECIAL_PART": 0.08, "TAGGED_PART": 0.08, "COMPLEX": 0.06},
-                   inverses={"PART": [("used_in", "ASSEMBLY", "components", True), ("main_of", "ASSEMBLY", "main_part", True),
+                   weights={"PART": 0.2, "SPECIAL_PART": 0.1, "VERY_SPECIAL_PART": 0.08, "TAGGED_PART": 0.08, "COMPLEX": 0.06, "TASK": 0.12},
+                   inverses={"PART": [("crates", "CRATE", "content", True), ("sub_owners", "SUB_HOLDER", "held", True), ("used_in", "ASSEMBLY", "components", True), ("main_of", "ASSEMBLY", "main_part", True),
                                       ("doc", "DOCUMENTATION", "about", False), ("labels", "LABEL", "ltarget", True)],
                              "SPECIAL_PART": [("certified_by", "CERTIFICATE", "subject", True)],
-                             "TAGGED": [("tag_users", "TAG_USE", "target", True)]},
+                             "TAGGED": [("tag_users", "TAG_USE", "target", True)],
+                             "TASK": [("needed_by", "TASK", "needs", True), ("before", "TASK", "after", True)]},
                    skip=["LABEL"])       # a LABEL that refers to a part stops the loader (open finding select_typed_inverted_attribute)
 VERIF_INV.fallback = "PART"
